@@ -590,6 +590,16 @@ func (t *tokenizer) readOperator() (string, error) {
 	}
 
 	for isOperatorChar(c) {
+		if c == '/' {
+			// A comment ends the operator: "+//" is the operator "+" followed by a comment.
+			cs, err := t.peekN(2)
+			if err != nil && err != io.EOF {
+				return "", err
+			}
+			if len(cs) == 2 && (cs[1] == '/' || cs[1] == '*') {
+				break
+			}
+		}
 		ret.WriteByte(byte(c))
 		_, err = t.read()
 		if err != nil {
